@@ -941,3 +941,76 @@ def _is_cube(dia):
         _, a, b = n
         return (a == 'F') != (b == 'F') and cube(b if a == 'F' else a)
     return cube(t)
+
+
+# ------------------------------------------------------------------------------------------------ derived PartialEq / Hash of BDD (C02 b)
+
+def unit_bdd_eq(k, opts):
+    """the crate's derived PartialEq on two canonical diagrams returns true iff they denote the same function"""
+    I = load('lib')
+    if opts.get('mutate'):
+        apply_mir_mutation(I, opts['mutate'])
+    w = world_for(k)
+    A, B = w.tt('a'), w.tt('b')
+    a, b = w.canon(A), w.canon(B)
+    it = I.by_key.get(('BDD', 'PartialEq', 'eq'))
+    if it is None:
+        raise Unsupported('no PartialEq impl for BDD in the crate')
+    outs = I.call_item(it, [mk_sref(a.inner), mk_sref(b.inner)], {})
+    rets, pc, _ = outcome_split(outs)
+    same = gand(*[beq(x, y) for x, y in zip(A, B)])
+    res = dict(queries=[], method='<BDD as PartialEq>::eq')
+    bad = False
+    for r in rets:
+        bad = gor(bad, gand(r.guard, gnot(beq(r.value, same))))
+    for name, neg in (('no panic', pc), ('result == canonical diagram: derived == on canonical diagrams is true iff the functions are equal', bad)):
+        q = decide(name, w.constraints, neg, timeout_s=opts.get('timeout', 250))
+        q['expect'] = 'unsat'
+        q.pop('model', None)
+        res['queries'].append(q)
+        if q['result'] != 'unsat':
+            res['status'] = 'inconclusive' if q['result'] != 'sat' else 'pass'
+            if q['result'] == 'sat':
+                res['cex'] = None
+                res['eqfail'] = name
+    res.update(interp_summary(I))
+    res['sample'] = dict(unit='<BDD as PartialEq>::eq on canonical diagrams k=%d' % k, obligation='eq(canon(A), canon(B)) <=> A == B')
+    return res
+
+
+def unit_bdd_hash(k, opts):
+    """equal canonical diagrams feed the same sequence of writes to the hasher (Hash consistent with Eq)"""
+    I = load('lib')
+    w = world_for(k)
+    A, B = w.tt('a'), w.tt('b')
+    a, b = w.canon(A), w.canon(B)
+    it = I.by_key.get(('BDD', 'Hash', 'hash'))
+    if it is None:
+        raise Unsupported('no Hash impl for BDD in the crate')
+
+    def run(v):
+        c = I.new_cell()
+        outs = I.call_item(it, [mk_sref(v.inner), MRef(c, ())], {c: Seq(())})
+        rets, pc, _ = outcome_split(outs)
+        return [(r.guard, r.mem[c]) for r in rets], pc
+    ra, pa = run(a)
+    rb, pb = run(b)
+    same = gand(*[beq(x, y) for x, y in zip(A, B)])
+    bad = False
+    ve = Veq(lenient=True)
+    for ga, sa in ra:
+        for gb, sb in rb:
+            bad = gor(bad, gand(ga, gb, gnot(ve.eq(sa, sb))))
+    res = dict(queries=[], method='<BDD as Hash>::hash')
+    for name, neg in (('no panic', gor(pa, pb)), ('equal functions => equal hasher write sequences', gand(same, bad))):
+        q = decide(name, w.constraints, neg, timeout_s=opts.get('timeout', 250))
+        q['expect'] = 'unsat'
+        q.pop('model', None)
+        res['queries'].append(q)
+        if q['result'] == 'sat':
+            res['eqfail'] = name
+        elif q['result'] != 'unsat':
+            res['status'] = 'inconclusive'
+    res.update(interp_summary(I))
+    res['sample'] = dict(unit='<BDD as Hash>::hash on canonical diagrams k=%d' % k, obligation='A == B  =>  same write sequence (discriminants, symbol ids)')
+    return res
